@@ -132,6 +132,10 @@ func checkCase(c Case) error {
 	if err != nil {
 		return fmt.Errorf("Parse rejects a well-formed image: %v", err)
 	}
+	bystander, ok := hx.RepoFile("tests/data/binary/test.pecoff")
+	if !ok {
+		bystander = orig
+	}
 	before := libDigest(bin)
 	if !bytes.Equal(before, h0.Digest) {
 		return fmt.Errorf("digest before signing %x differs from the specification digest %x", before, h0.Digest)
@@ -156,6 +160,11 @@ func checkCase(c Case) error {
 			return fmt.Errorf("step %d: Sign: %v", i, err)
 		}
 		signers = append(signers, id.Cert)
+		// a bystander image is signed in between: objects must not share state
+		if by, err := authenticode.Parse(bytes.NewReader(bystander)); err == nil {
+			by.Sign(ids[(st.Ident+1)%4].Priv(), ids[(st.Ident+1)%4].Cert)
+			_ = by.Bytes()
+		}
 		out := bin.Bytes()
 		step := fmt.Sprintf("after signature %d (%d-bit key, reparse=%v, input %s %d bytes)", i+1, id.Priv().N.BitLen(), st.Reparse, c.Source, len(orig))
 
